@@ -33,6 +33,8 @@ pub struct Sched {
     m: Mutex<Inner>,
     cv: Condvar,
     free: bool,
+    /// when set, only sites starting with one of these prefixes are seen (others are neither scheduled nor logged)
+    filter: Option<Vec<String>>,
 }
 
 #[derive(Debug)]
@@ -50,7 +52,17 @@ pub type Waiting = BTreeMap<usize, (String, Vec<i64>)>;
 impl Sched {
     /// `free = true`: hooks only log, nothing parks (real parallel run).
     pub fn new(nworkers: usize, free: bool) -> Arc<Sched> {
-        Arc::new(Sched { m: Mutex::new(Inner { nworkers, ..Default::default() }), cv: Condvar::new(), free })
+        Arc::new(Sched { m: Mutex::new(Inner { nworkers, ..Default::default() }), cv: Condvar::new(), free, filter: None })
+    }
+
+    /// Like `new`, but only sites with one of the given prefixes are scheduled / logged.
+    pub fn new_filtered(nworkers: usize, free: bool, prefixes: &[&str]) -> Arc<Sched> {
+        Arc::new(Sched {
+            m: Mutex::new(Inner { nworkers, ..Default::default() }),
+            cv: Condvar::new(),
+            free,
+            filter: Some(prefixes.iter().map(|s| s.to_string()).collect()),
+        })
     }
 
     fn yield_point(&self, tid: usize, site: &str, args: &[i64]) {
@@ -86,6 +98,11 @@ impl Sched {
             // private memory (speculative allocations, deferred epoch garbage): not scheduled, not logged.
             let in_drop = std::cell::Cell::new(0u32);
             metrics::verif::install(Box::new(move |site, args| {
+                if let Some(f) = &s2.filter {
+                    if !f.iter().any(|p| site.starts_with(p.as_str())) {
+                        return;
+                    }
+                }
                 if site == "blk.drop.post" {
                     in_drop.set(in_drop.get() + 1);
                     s2.log(tid, site, args);
